@@ -48,6 +48,13 @@ def build(race=False, go='go'):
     name = 'vrun' + ('-race' if race else '') + ('' if go == 'go' else '-' + go)
     out = os.path.join(BUILD, name)
     cmd = [go, 'build', '-tags', 'verif']
+    if os.path.abspath(REPO) != '/repo':
+        # scratch copy of the repository (mutant calibration): same harness, alternative module file
+        alt = os.path.join(HARNESS, 'go.alt.mod')
+        with open(alt, 'w') as f:
+            f.write(open(os.path.join(HARNESS, 'go.mod')).read().replace('=> /repo', '=> ' + os.path.abspath(REPO)))
+        shutil.copyfile(os.path.join(HARNESS, 'go.sum'), os.path.join(HARNESS, 'go.alt.sum'))
+        cmd.append('-modfile=' + alt)
     if race:
         cmd.append('-race')
     cmd += ['-o', out, './cmd/vrun']
